@@ -4,6 +4,8 @@ CONSTANTS
   Pool <- PoolB
   MaxLevel = 2
   MaxLearnt = 2
+  CheckPool <- NoChecks
+  EmitFrom = 0
   LoseWatchBug = FALSE
 CONSTRAINT Bounded
 VIEW GView
